@@ -63,7 +63,7 @@ static std::vector<Prefix> c10_prefixes(bool thorough = false) {
 }
 
 // whole-script boundary cases that are not "prefix + symbol": script size, multi-phase op-count reset
-struct Whole { std::string name; ref::SigVer sv; uint32_t flags; bytes script; bytes successor; std::vector<bytes> stack; };
+struct Whole { std::string name; ref::SigVer sv; uint32_t flags; bytes script; bytes successor; std::vector<bytes> stack; bool allow_disabled = false; };
 static bytes sized_script(size_t n) {   // exactly n bytes: 520-byte pushes, a filler push, then one DROP per push so the stack ends empty
     // layout: [push520]*a [pushX] DROP*(a+1) 1
     for (size_t a = 19;; a--) {
@@ -107,6 +107,13 @@ static std::vector<Whole> c10_wholes() {
         W.push_back({"initial stack of " + std::to_string(n) + " items, script DROP DROP", sv, 0, ref::unhex("7575"), {}, st});
         W.push_back({"initial stack of " + std::to_string(n) + " items, script NOP", sv, 0, ref::unhex("61"), {}, st});
     }
+    // re-enabled opcodes (--allow-disabled-opcodes) are operations like any other: the combined stack limit is tested after them, and what
+    // they produce is a stack element (at most 520 bytes)
+    for (auto sv : {ref::SigVer::BASE, ref::SigVer::WITNESS_V0}) {
+        for (size_t n : {1001, 1002, 1003}) { std::vector<bytes> st(n, bytes{0x01}); Whole w{"re-enabled OP_CAT on an initial stack of " + std::to_string(n) + " items", sv, 0, ref::unhex("7e"), {}, st}; w.allow_disabled = true; W.push_back(w); }
+        for (size_t n : {1000, 1001, 1002}) { std::vector<bytes> st(n, bytes{0x01}); Whole w{"re-enabled OP_INVERT on an initial stack of " + std::to_string(n) + " items", sv, 0, ref::unhex("83"), {}, st}; w.allow_disabled = true; W.push_back(w); }
+        for (size_t a : {259, 260, 261}) { std::vector<bytes> st{alpha::filler(a), alpha::filler(260)}; Whole w{"re-enabled OP_CAT of " + std::to_string(a) + " + 260 bytes", sv, 0, ref::unhex("7e8277"), {}, st}; w.allow_disabled = true; W.push_back(w); }
+    }
     // the 520-byte element limit applies to every push the interpreter reads, executed or not (the limit check precedes the
     // fExec test); a scriptPubKey reaches the interpreter without the parse-time screen applied to command-line scripts
     for (size_t n : {519, 520, 521, 522}) {
@@ -130,7 +137,7 @@ static std::vector<Whole> c10_wholes() {
 static ref::Err ref_phases(const Whole& w, std::vector<bytes>& stack) {
     stack = w.stack;
     if (w.sv == ref::SigVer::TAPSCRIPT && stack.size() > ref::MAX_STACK) return ref::Err::STACK_SIZE;   // BIP342 initial stack limit
-    ref::Err e = ref::eval_script(stack, w.script, w.flags, w.sv, nullptr);
+    ref::Err e = ref::eval_script(stack, w.script, w.flags, w.sv, nullptr, ref::ExecData(), w.allow_disabled);
     if (e != ref::Err::OK || w.successor.empty()) return e;
     std::vector<bytes> copy = stack;
     e = ref::eval_script(stack, w.successor, w.flags, ref::SigVer::BASE, nullptr);
@@ -153,7 +160,7 @@ static void run_whole(const Whole& w, Violations& V, long long& sessions) {
     ref::Err re = ref_phases(w, rstack);
     impl::Session s;
     if (!w.successor.empty()) s.inst.successor_script = CScript(w.successor.begin(), w.successor.end());
-    bool opened = s.open(w.script, w.stack, w.flags, w.sv, false);
+    bool opened = s.open(w.script, w.stack, w.flags, w.sv, w.allow_disabled);
     std::string ie;
     if (!s.parse_ok) ie = "REFUSED";
     else if (!opened) ie = impl::err_name(s.inst.error);
@@ -179,7 +186,7 @@ static int ext_arity(uint8_t c) { return c == 0x7f ? 3 : (c == 0x83 || c == 0x8d
 static std::vector<bytes> W_values(bool thorough = false) {
     std::vector<bytes> w;
     if (thorough) { for (int b = 0; b < 256; b++) w.push_back(bytes{uint8_t(b)}); for (const char* h : {"", "0080", "8000", "8080", "ff00", "ff7f", "ffff", "ff80", "0100", "ffffff7f", "ffffffff", "00000080", "0000008000", "aabb", "aabbcc", "0102030405", "ffffffff7f"}) w.push_back(ref::unhex(h)); return w; }
-    for (const char* h : {"", "00", "80", "01", "81", "02", "03", "7f", "ff", "0080", "8000", "8080", "ff00", "ff7f", "ffff", "ffffff7f", "ffffffff", "0000008000", "aabb", "aabbcc", "0102030405", "10", "1f", "20", "21", "3f", "40", "05", "06"}) w.push_back(ref::unhex(h));
+    for (const char* h : {"", "00", "80", "01", "81", "02", "03", "7f", "ff", "0080", "8000", "8080", "ff00", "ff7f", "ffff", "ffffff7f", "ffffffff", "0000008000", "aabb", "aabbcc", "0102030405", "10", "1f", "20", "21", "3f", "40", "05", "06", "3e", "3d", "19", "ffffffff7f"}) w.push_back(ref::unhex(h));
     return w;
 }
 
@@ -189,11 +196,19 @@ static int ext_domain(uint8_t c, const std::vector<bytes>& o) {
     auto isnum4 = [](const bytes& b) { return b.size() <= 4; };
     switch (c) {
     case 0x8d: case 0x8e: return isnum4(o[0]) ? 0 : 1;
-    case 0x95: case 0x96: case 0x97: return (isnum4(o[0]) && isnum4(o[1])) ? 0 : 1;
+    case 0x95: case 0x96: case 0x97: {
+        if (isnum4(o[0]) && isnum4(o[1])) return 0;
+        // 5-byte operands are accepted by these opcodes: a product that does not fit 64 bits must be a script error, everything else the value
+        return (o[0].size() <= 5 && o[1].size() <= 5) ? 2 : 1;
+    }
     case 0x98: case 0x99: {
-        if (!isnum4(o[0]) || !isnum4(o[1])) return 1;
+        if (o[0].size() > 5 || o[1].size() > 5) return 1;
         int64_t a = ref::num_decode(o[0]), b = ref::num_decode(o[1]);
-        return (a >= 0 && b >= 0 && b < 32) ? 0 : 1;
+        if (a >= 0 && b >= 0 && b < 32 && isnum4(o[0]) && isnum4(o[1])) return 0;
+        // wider shifts / 5-byte values: either a script error or exactly the denoted value (a left shift whose result needs more than
+        // 63 bits has no denoted value: the reference fails it); negative values shifted right are left to the implementation
+        if (c == 0x99 && a < 0) return 1;
+        return 2;
     }
     case 0x7f: return (o[1].size() <= 2 && o[2].size() <= 2) ? 0 : 2;   // 2: must fail or give the slice (wider offsets are numerically out of range or tool-limited)
     case 0x80: case 0x81: return o[1].size() <= 2 ? 0 : 2;
